@@ -1,5 +1,5 @@
 (* Top-level lemmas about the transaction codec model: unmarshal, payload, hash. *)
-From Coq Require Import List ZArith NArith Bool Lia ZifyN ZifyNat ZifyBool.
+From Coq Require Import List ZArith NArith Bool Lia ZifyN ZifyNat ZifyBool Permutation.
 Require Import Mixin.Base.Res Mixin.Gen.Consts Mixin.Model.TxCodec Mixin.Proofs.TxCodec.
 Import ListNotations.
 Open Scope N_scope.
@@ -32,6 +32,65 @@ Proof.
   unfold dec_tx. rewrite (dec_tx_lim_ser _ _ W), E, bytes_eqb_refl. reflexivity.
 Qed.
 
+(* the decoder's output always satisfies the encoder's guards *)
+Lemma unmarshal_no_panic : forall b, bytes_ok b -> unmarshal b <> Panic.
+Proof.
+  intros b Hb. unfold unmarshal.
+  destruct (tx_max_size <? blen b); [discriminate|].
+  destruct (dec_tx b) as [t|] eqn:D; [|discriminate].
+  unfold dec_tx in D. destruct (dec_tx_lim_ok slice_limit b t ltac:(rewrite slice_limit_val; lia) D Hb) as [V O].
+  unfold enc_tx. rewrite V, N.eqb_refl, O. cbn [andb].
+  destruct (bytes_eqb (ser_tx t) b); discriminate.
+Qed.
+
+(* ---- a map has no order -------------------------------------------------------------- *)
+Lemma sig_insert_comm : forall x y s, fst x <> fst y ->
+  sig_insert x (sig_insert y s) = sig_insert y (sig_insert x s).
+Proof.
+  intros x y s Hne. induction s as [|f l IH].
+  - cbn [sig_insert]. destruct (fst x <? fst y) eqn:A; destruct (fst y <? fst x) eqn:B; try reflexivity; lia.
+  - cbn [sig_insert].
+    destruct (fst x <? fst f) eqn:A; destruct (fst y <? fst f) eqn:B; cbn [sig_insert];
+      rewrite ?A, ?B.
+    + destruct (fst x <? fst y) eqn:C; destruct (fst y <? fst x) eqn:D; try reflexivity; lia.
+    + destruct (fst y <? fst x) eqn:D; [lia | reflexivity].
+    + destruct (fst x <? fst y) eqn:D; [lia | reflexivity].
+    + rewrite IH. reflexivity.
+Qed.
+
+Lemma keys_distinct_NoDup : forall m, keys_distinct m = true <-> NoDup (map fst m).
+Proof.
+  induction m as [|e m IH]; cbn [keys_distinct map].
+  - split; [constructor | reflexivity].
+  - rewrite andb_true_iff, negb_true_iff, IH. split.
+    + intros [A B]. constructor; [|exact B]. intro Hin. apply in_map_iff in Hin.
+      destruct Hin as [f [Ef Hf]]. assert (X : existsb (fun f0 => fst f0 =? fst e) m = true).
+      { apply existsb_exists. exists f. split; [exact Hf | apply N.eqb_eq; exact Ef]. }
+      congruence.
+    + intro H. inversion H as [|? ? Hn Hd]; subst. split; [|exact Hd].
+      destruct (existsb (fun f => fst f =? fst e) m) eqn:X; [|reflexivity].
+      exfalso. apply Hn. apply existsb_exists in X. destruct X as [f [Hf Ef]]. apply N.eqb_eq in Ef.
+      apply in_map_iff. exists f. split; assumption.
+Qed.
+
+Lemma sig_sort_perm : forall m1 m2, Permutation m1 m2 -> keys_distinct m1 = true ->
+  sig_sort m1 = sig_sort m2.
+Proof.
+  intros m1 m2 P. induction P as [| x l l' P IH | x y l | l l' l'' P1 IH1 P2 IH2]; intro D.
+  - reflexivity.
+  - cbn [sig_sort]. rewrite IH; [reflexivity|]. cbn [keys_distinct] in D. apply andb_true_iff in D. apply D.
+  - cbn [sig_sort]. apply sig_insert_comm. apply keys_distinct_NoDup in D. cbn [map] in D.
+    inversion D as [|? ? Hn _]; subst. intro E. apply Hn. left. symmetry. exact E.
+  - rewrite IH1 by exact D. apply IH2. apply keys_distinct_NoDup. apply keys_distinct_NoDup in D.
+    eapply Permutation_NoDup; [apply Permutation_map; exact P1 | exact D].
+Qed.
+
+Lemma ser_sigs_perm : forall m1 m2, Permutation m1 m2 -> keys_distinct m1 = true ->
+  ser_sigs m1 = ser_sigs m2.
+Proof.
+  intros m1 m2 P D. unfold ser_sigs, blen. rewrite (Permutation_length P), (sig_sort_perm _ _ P D). reflexivity.
+Qed.
+
 (* ---- payload ------------------------------------------------------------------------------ *)
 (* only the payload fields are constrained: type ranges and the encoder's own guards *)
 Definition wf_payload (t : tx) : Prop := wf_tx_lim max_int (payload t).
@@ -52,13 +111,18 @@ Proof.
   - repeat match goal with HH : _ = true |- _ => rewrite HH; clear HH end. reflexivity.
 Qed.
 
+Lemma Ok_inj : forall A (a b : A), Ok a = Ok b -> a = b.
+Proof. intros A a b H. inversion H. reflexivity. Qed.
+Lemma Some_inj : forall A (a b : A), Some a = Some b -> a = b.
+Proof. intros A a b H. inversion H. reflexivity. Qed.
+
 Lemma enc_payload_injective : forall t1 t2, wf_payload t1 -> wf_payload t2 ->
   enc_payload t1 = enc_payload t2 -> payload t1 = payload t2.
 Proof.
   intros t1 t2 W1 W2 E. unfold enc_payload in E.
-  rewrite (enc_tx_wf _ _ W1), (enc_tx_wf _ _ W2) in E. inversion E as [E'].
+  rewrite (enc_tx_wf _ _ W1), (enc_tx_wf _ _ W2) in E. apply Ok_inj in E.
   pose proof (dec_tx_lim_ser _ _ W1) as D1. pose proof (dec_tx_lim_ser _ _ W2) as D2.
-  rewrite E' in D1. rewrite D1 in D2. inversion D2. reflexivity.
+  rewrite E in D1. rewrite D1 in D2. apply Some_inj in D2. exact D2.
 Qed.
 
 (* ---- hash ------------------------------------------------------------------------------- *)
